@@ -6,6 +6,7 @@ package storeh
 import (
 	"context"
 	"fmt"
+	"github.com/streamingfast/substreams/pipeline/exec"
 	"math"
 	"math/big"
 	"os"
@@ -86,8 +87,9 @@ type Env struct {
 	Fail func(class, desc string)
 	// pre-block content (real Iter) for the delta oracle
 	pre map[string]map[string][]byte
+	// the operation log the executor produced for the cached-output file of the last block of each store
+	lastLog map[store.Store][]byte
 }
-
 
 func NewEnv(ctx context.Context, dir, policy, vt, govt string, appendLimit, totalLimit, itemLimit uint64) *Env {
 	os.RemoveAll(dir)
@@ -208,7 +210,8 @@ func (e *Env) doOp(c *wasm.Call, o Op) {
 }
 
 // execBlock = what the pipeline does for one block of a store module: NewCall (which Resets the store),
-// the module's host calls, then Flush.
+// the module's host calls, then the executor's own wrapDeltasAndOps (hook exec.VerifWrapDeltasAndOps: Flush, the
+// deltas, and the operation log destined to the cached-output file — the log `rp` replays).
 func (e *Env) execBlock(s store.Store, ops []Op) (res string) {
 	defer func() {
 		if r := recover(); r != nil {
@@ -220,9 +223,14 @@ func (e *Env) execBlock(s store.Store, ops []Op) (res string) {
 	for _, o := range ops {
 		e.doOp(call, o)
 	}
-	if err := s.Flush(); err != nil {
+	_, log, err := exec.VerifWrapDeltasAndOps(s)
+	if err != nil {
 		return "err:" + classifyErr(err)
 	}
+	if e.lastLog == nil {
+		e.lastLog = map[store.Store][]byte{}
+	}
+	e.lastLog[s] = log
 	return ""
 }
 
@@ -531,7 +539,7 @@ func (e *Env) Step(w []string) (res string) {
 		if !e.hasPend[n] {
 			return "bad-step"
 		}
-		log := s.ReadOps()
+		log := e.lastLog[s] // what the executor wrote for the cached-output file
 		e.hasPend[n] = false
 		t.Reset()
 		if err := t.ApplyOps(log); err != nil {
